@@ -2022,6 +2022,7 @@ func (e *Engine) writeSnapshotAndCommit(log *zap.Logger, closedFiles []string, s
 		log.Info("Error writing snapshot from compactor", zap.Error(err))
 		return err
 	}
+	verifPoint("snapshot.written", newFiles)
 
 	e.mu.RLock()
 	defer e.mu.RUnlock()
@@ -2038,6 +2039,8 @@ func (e *Engine) writeSnapshotAndCommit(log *zap.Logger, closedFiles []string, s
 		}
 		return err
 	}
+
+	verifPoint("snapshot.replaced", newFiles)
 
 	// clear the snapshot from the in-memory cache, then the old WAL files
 	e.Cache.ClearSnapshot(true)
